@@ -407,12 +407,14 @@ func c16CtxSession(out *vlib.Out, r *vlib.Rand, transport, shapeS, shapeC string
 		}
 		defer c16Retire(l)
 		addr := l.Addr().(*net.UDPAddr)
+		accReturned := make(chan struct{})
 		go func() {
 			c, err := l.AcceptWithContext(cs.ctx, &Config{PSK: c16Secret(secret), SCTP: ServerAccept})
 			sch <- c16Estab{c, err}
+			close(accReturned)
 		}()
 		rnd, _ := clientHelloRandomFromSeed(c16Secret(secret))
-		if !c16WaitRegistered(l, rnd, d/2) {
+		if !c16WaitRegistered(l, rnd, d/2, accReturned) {
 			cs.cancel()
 			<-sch
 			out.Count("ctxsession:no-handshake")
